@@ -94,6 +94,7 @@ def gen_case(rng, tier):
     steps = [ox.plane('Pupil', amp=amp, opd=opd, px=dx, z=z, mask=None if rng.random() < 0.6 else (amp != 0).astype(int)),
              ox.dft(du, (M, K), (pM, pK), os_, mask)]
     steps[1]['explicit_pshape'] = rng.random() < 0.5
+    steps[1]['mask_form'] = rng.choice(('int', 'half', 'quarter-float32', 'bool', 'list'))
     c = {'N': N, 'wf': ox.wf(lam), 'steps': steps, 'dir': 'p2i'}
     # (a one-sample propagation result is a one-element Field = infinite constant for the next plane: see C06/C07)
     if rng.random() < 0.3 and M * os_ * K * os_ <= 36 and mask is None and pM * pK * os_ * os_ >= 2:
@@ -134,6 +135,33 @@ def check(ctx, lentil, c, spec):
                       case={'case': c, 'spec': spec})
 
 
+def check_scaling(ctx, lentil, c, rng):
+    """propagation is linear: the same program with every plane amplitude scaled by k gives k x the field, however small or large k"""
+    base = ox.run_real(lentil, c)
+    if any(o.get('err', 'none') != 'none' for o in base):
+        return
+    k = rng.choice((1e-9, 1e-12, 1e-15, 1e9))
+
+    def hook(p, st):
+        if st is c['steps'][0]:
+            p.amplitude = np.asarray(p.amplitude, dtype=float) * k
+        return p
+    scaled = ox.run_real(lentil, c, plane_hook=hook)
+    for i, (a, b) in enumerate(zip(base, scaled)):
+        if b.get('err', 'none') != 'none':
+            ctx.violation({'kind': 'scaled-amplitude-' + str(b['err']), 'scale': k}, {'step': i, 'msg': b.get('msg')}, case={'case': c})
+            return
+        fa, fb = a.get('field'), b.get('field')
+        if fa is None or fb is None:
+            continue
+        fa, fb = np.asarray(fa), np.asarray(fb)
+        if fa.shape != fb.shape or not np.allclose(fb / k, fa, rtol=1e-9, atol=1e-12 * (1 + np.abs(fa).max())):
+            ctx.violation({'kind': 'not-linear-in-amplitude', 'scale': k, 'step_op': c['steps'][i]['op']},
+                          {'step': i, 'max_abs_field': float(np.abs(fa).max()), 'max_abs_scaled_field_over_k': float(np.abs(fb / k).max()) if fa.shape == fb.shape else None},
+                          case={'case': c})
+            return
+
+
 def key_of(c):
     d = c['steps'][1]
     a = c['steps'][0]
@@ -156,6 +184,8 @@ def run(ctx):
         d = c['steps'][1]
         nontriv = d['pshape'] != d['shape'] or d['mask']['k'] != 'none' or d['os'] > 1 or d['du'][0] != d['du'][1]
         ctx.case(key_of(c), nontrivial=nontriv)
+    for c in rng.sample(cases, 150 if ctx.tier == 'quick' else 1500):
+        check_scaling(ctx, lentil, c, rng)
     ox.binding_selftest(ctx, lentil, cases[0], spec[cases[0]['id']])
     ctx.traces += len(cases)
     ctx.sample({'case': cases[0], 'spec_observations': spec[0]['obs']}, maxn=1)
